@@ -115,11 +115,30 @@ std::string render(const XObjectPtr& r, XPathExecutionContext& ctx)
 }
 
 // known finding pre-filters (see README, "Exclusions")
-const char* excluded(unsigned entry, const std::string& encoding)
+// F-C03-assert-namespace-axis-qname: "namespace::" followed by a name test that has a prefix (namespace::p:q, namespace::p:*)
+bool hasPrefixedNamespaceAxisTest(const std::string& e)
+{
+    size_t pos = 0;
+    while ((pos = e.find("namespace", pos)) != std::string::npos)
+    {
+        size_t i = pos + 9;
+        pos = i;
+        while (i < e.size() && isspace((unsigned char)e[i])) ++i;
+        if (e.compare(i, 2, "::") != 0) continue;
+        i += 2;
+        while (i < e.size() && isspace((unsigned char)e[i])) ++i;
+        while (i < e.size() && (isalnum((unsigned char)e[i]) || e[i] == '_' || e[i] == '-' || e[i] == '.' || (unsigned char)e[i] >= 0x80)) ++i;
+        while (i < e.size() && isspace((unsigned char)e[i])) ++i;
+        if (i < e.size() && e[i] == ':' && (i + 1 >= e.size() || e[i + 1] != ':')) return true;
+    }
+    return false;
+}
+const char* excluded(unsigned entry, const std::string& encoding, const std::string& expr)
 {
     if (filtersOff()) return 0;
+    if (filterActive("F-C03-assert-namespace-axis-qname") && (hasPrefixedNamespaceAxisTest(expr))) return "excluded_by_filter:F-C03-assert-namespace-axis-qname";
     // F-C03-icu-converter-name: XalanCreateXPath hands the encoding name to ICU's ucnv_openU unchecked
-    if (entry == 5 && hasNonAscii(encoding)) return "excluded_by_filter:F-C03-icu-converter-name";
+    if (filterActive("F-C03-icu-converter-name") && (entry == 5 && hasNonAscii(encoding))) return "excluded_by_filter:F-C03-icu-converter-name";
     // F-C03-utf16-transcoder-overread: XalanUTF16Transcoder::transcode(bytes -> UTF-16) reads past the end of its source
     if (entry == 5 && (strcasecmp(encoding.c_str(), "UTF-16") == 0 || strcasecmp(encoding.c_str(), "UTF-16LE") == 0 ||
                        strcasecmp(encoding.c_str(), "UTF-16BE") == 0))
@@ -147,7 +166,7 @@ extern "C" int LLVMFuzzerTestOneInput(const uint8_t* data, size_t size)
     std::string encoding = stripNul(fdp.ConsumeRemainingBytesAsString());
     if (encoding.size() > 40) encoding.resize(40);
     if (entryByte & 0x10) expr = std::string(150, '(') + expr + std::string(150, ')');
-    if (const char* why = excluded(entryByte & 7, encoding)) { count(why); return 0; }
+    if (const char* why = excluded(entryByte & 7, encoding, expr)) { count(why); return 0; }
 
     World& w = *g_world;
     XalanNode* const ctxNode = w.nodes[ctxByte % w.nodes.size()];
@@ -205,7 +224,7 @@ extern "C" int LLVMFuzzerTestOneInput(const uint8_t* data, size_t size)
             if (xp != 0) oracleFail("XalanCreateXPath: error status but a handle was stored");
             count("error_with_message");
         }
-        if (poisoned && !filtersOff())
+        if (poisoned && filterActive("F-C03-xpathevaluator-exception-unsafe"))
         {
             count("excluded_by_filter:F-C03-xpathevaluator-exception-unsafe");
             if (XalanDestroyXPathEvaluator(g_capi) != XALAN_XPATH_API_SUCCESS || XalanCreateXPathEvaluator(&g_capi) != XALAN_XPATH_API_SUCCESS)
@@ -298,7 +317,7 @@ extern "C" int LLVMFuzzerTestOneInput(const uint8_t* data, size_t size)
             poisoned = !inCreate;  // the string entry points parse and execute in one call: assume the worst
         }
         if (xp != 0 && !ev->destroyXPath(xp)) oracleFail("destroyXPath failed for an object the evaluator returned");
-        if (poisoned && !filtersOff())
+        if (poisoned && filterActive("F-C03-xpathevaluator-exception-unsafe"))
         {
             count("excluded_by_filter:F-C03-xpathevaluator-exception-unsafe");
             // replaced at once (not lazily by the next input): an input that only allocates would look like a leak to libFuzzer
